@@ -263,3 +263,47 @@ Definition hint_is_many (h : hint) : bool := match h with HMany _ => true | _ =>
 Definition hint_many_has (u : node) (h : hint) : bool := match h with HMany l => mem_text u l | _ => false end.
 (* what the register() closure of _add_tween does to the Tweens utility *)
 Inductive tw_reg := TRExplicit (n : node) (f : N) | TRImplicit (n : node) (f : N) (under over : hint).
+
+(* ---- PredicateList.make (config/predicates.py): primitives of its translator (harness/c18/translate_make.py) *)
+Inductive pval := PV (x : N) | PNot (x : N).                 (* a predicate value, possibly wrapped in not_(..) *)
+Inductive pvals := VOne (v : pval) | VSeq (l : list pval).   (* one value, or a predvalseq of values *)
+Inductive pred := Pred (name : node) (factory : N) (v : pval) | NottedP (p : pred).
+Inductive phres := PhOne (p : pred) | PhMany (l : list pred). (* what pred.phash() returns: opaque; here the predicate(s) it names *)
+Definition pv_is_not (v : pval) : bool := match v with PNot _ => true | PV _ => false end.   (* isinstance(val, not_) *)
+Definition pv_value (v : pval) : pval := match v with PNot x => PV x | PV x => PV x end.      (* val.value *)
+Definition pvals_list (v : pvals) : list pval := match v with VOne x => [x] | VSeq l => l end.
+                                                  (* if not isinstance(vals, predvalseq): vals = (vals,) *)
+Definition ph_of (p : pred) : phres := PhOne p.                                               (* pred.phash() *)
+Definition ph_list (r : phres) : list pred := match r with PhOne p => [p] | PhMany l => l end.
+                                                  (* if not is_nonstr_iter(hashes): hashes = [hashes] *)
+Inductive make_result :=
+| MkOk (order : Z) (preds : list pred) (phash : list pred)
+| MkUnknown (names : list node)                   (* ConfigurationError('Unknown predicate values ..') *)
+| MkSortError (e : outcome).                      (* the error of self.sorter.sorted() *)
+Fixpoint pred_name (p : pred) : node := match p with Pred n _ _ => n | NottedP q => pred_name q end.
+
+(* reference model of make(): for the sorted (name, factory) pairs in order, the values given for that name -- one
+   predicate per value, not_ values wrapped in Notted; weight 1 << n+1 for position n; leftover keywords = error *)
+Definition mk_pred (n : node) (f : N) (v : pval) : pred :=
+  if pv_is_not v then NottedP (Pred n f (pv_value v)) else Pred n f v.
+Definition make_step (st : list (node * pvals) * list pred * list pred * list Z) (x : nat * (node * N))
+  : list (node * pvals) * list pred * list pred * list Z :=
+  let '(kw, phash, preds, weights) := st in
+  let '(n, (name, f)) := x in
+  match aget name kw with
+  | None => st
+  | Some vals =>
+      let ps := map (mk_pred name f) (pvals_list vals) in
+      (adel name kw, phash ++ ps, preds ++ ps, weights ++ map (fun _ => Z.shiftl 1 (Z.of_nat n + 1)) ps)
+  end.
+Fixpoint enumerate_from {A} (i : nat) (l : list A) : list (nat * A) :=
+  match l with [] => [] | x :: r => (i, x) :: enumerate_from (S i) r end.
+Definition max_order_default : Z := Z.shiftl 1 30.
+Definition pl_make (max_order : Z) (o : outcome) (kw : list (node * pvals)) : make_result :=
+  match o with
+  | Sorted ordered =>
+      let '(kw', phash, preds, weights) := fold_left make_step (enumerate_from 0 ordered) (kw, [], [], []) in
+      if nonempty kw' then MkUnknown (map fst kw')
+      else MkOk (Z.div (max_order - fold_left Z.lor weights 0%Z) (Z.of_nat (length preds) + 1)) preds phash
+  | e => MkSortError e
+  end.
